@@ -557,6 +557,7 @@ var EvoEdits = []EvoEdit{
 			}
 		}
 		d.Base = nb
+		d.BaseRef = nil
 		return d.Name, true
 	}},
 	{"enum-to-flags", "error", func(t *rapid.T, p *Package, env *Env) (string, bool) {
